@@ -45,6 +45,9 @@ var queries = []string{
 	`{ everyone { ...EU ...EA } } fragment EU on User { name age } fragment EA on Admin { hiding }`,
 	`{ users { devices { owner { devices { id } } } } }`,
 	`{ admins { hiding } users { secret } devices { tags } }`,
+	`{ users { device { id } device { owner { name } owner { email } } } }`,
+	`{ users { id } users { boss { name } boss { age } boss { boss { id } } } }`,
+	`{ devices { owner { id } } devices { owner { email } tags owner { age } } }`,
 }
 
 func normNumbers(v interface{}) interface{} { n, _ := gqlfix.Norm(v); return n }
